@@ -42,34 +42,46 @@ Definition L_RESOURCE_UPDATE := 1.     (* datapoint label 'resource_update' *)
 (** Actions the manager's world can put on the queue. *)
 Inductive ract := ACheck | ADeferred (k : nat).
 
+(** the only environment calls the manager makes *)
+Inductive rcmd := RSched (t prio asset : Z) (a : ract) | RData (label sub : Z) (payload : list Z).
+Definition to_cmd (c : rcmd) : cmd ract :=
+  match c with RSched t p a act => CSched t p a act | RData l s d => CData l s d end.
+
+(** a waiting entry: the deep-copied request, the callback, and (ghost) its registration number *)
+Record wentry := mkW { we_req : req; we_cb : nat; we_id : nat }.
+(** a callback invocation: callback, request passed, time, and (ghost) the registration number
+    and the pools at the moment of the call *)
+Record cbentry := mkCb { ce_cb : nat; ce_req : req; ce_time : Z; ce_id : nat; ce_pools : pools }.
+
 Record rs := mkRs {
   r_pools : pools;
-  r_wait : list (req * nat);            (* (deep-copied request, callback id) in registration order *)
+  r_wait : list wentry;                 (* in registration order *)
   r_res : list req;                     (* every ReservedResources object ever created, by creation index *)
   r_slots : list (Z * option nat);      (* harness variable -> reservation object (None = reserve returned None) *)
-  r_cblog : list (nat * req * Z);       (* callback invocations (id, request passed, time), newest first *)
-  r_out : list (cmd ract);              (* environment calls made, newest first *)
+  r_cblog : list cbentry;               (* callback invocations, newest first *)
+  r_out : list rcmd;                    (* environment calls made, newest first *)
   r_err : Z;
-  r_env : bool }.                       (* initialize(env) has been called *)
+  r_env : bool;                         (* initialize(env) has been called *)
+  r_nreg : nat }.                       (* ghost: number of registrations so far *)
 
-Definition init_rs : rs := mkRs [] [] [] [] [] [] 0 false.
+Definition init_rs : rs := mkRs [] [] [] [] [] [] 0 false O.
 
-Definition set_pools (s : rs) p := mkRs p (r_wait s) (r_res s) (r_slots s) (r_cblog s) (r_out s) (r_err s) (r_env s).
-Definition set_wait (s : rs) w := mkRs (r_pools s) w (r_res s) (r_slots s) (r_cblog s) (r_out s) (r_err s) (r_env s).
-Definition set_res (s : rs) x := mkRs (r_pools s) (r_wait s) x (r_slots s) (r_cblog s) (r_out s) (r_err s) (r_env s).
-Definition set_slots (s : rs) x := mkRs (r_pools s) (r_wait s) (r_res s) x (r_cblog s) (r_out s) (r_err s) (r_env s).
-Definition set_cblog (s : rs) x := mkRs (r_pools s) (r_wait s) (r_res s) (r_slots s) x (r_out s) (r_err s) (r_env s).
-Definition emit (s : rs) c := mkRs (r_pools s) (r_wait s) (r_res s) (r_slots s) (r_cblog s) (c :: r_out s) (r_err s) (r_env s).
-Definition fail (s : rs) e := mkRs (r_pools s) (r_wait s) (r_res s) (r_slots s) (r_cblog s) (r_out s) e (r_env s).
-Definition set_env (s : rs) b := mkRs (r_pools s) (r_wait s) (r_res s) (r_slots s) (r_cblog s) (r_out s) (r_err s) b.
+Definition set_pools (s : rs) p := mkRs p (r_wait s) (r_res s) (r_slots s) (r_cblog s) (r_out s) (r_err s) (r_env s) (r_nreg s).
+Definition set_wait (s : rs) w := mkRs (r_pools s) w (r_res s) (r_slots s) (r_cblog s) (r_out s) (r_err s) (r_env s) (r_nreg s).
+Definition set_res (s : rs) x := mkRs (r_pools s) (r_wait s) x (r_slots s) (r_cblog s) (r_out s) (r_err s) (r_env s) (r_nreg s).
+Definition set_slots (s : rs) x := mkRs (r_pools s) (r_wait s) (r_res s) x (r_cblog s) (r_out s) (r_err s) (r_env s) (r_nreg s).
+Definition set_cblog (s : rs) x := mkRs (r_pools s) (r_wait s) (r_res s) (r_slots s) x (r_out s) (r_err s) (r_env s) (r_nreg s).
+Definition emit (s : rs) c := mkRs (r_pools s) (r_wait s) (r_res s) (r_slots s) (r_cblog s) (c :: r_out s) (r_err s) (r_env s) (r_nreg s).
+Definition fail (s : rs) e := mkRs (r_pools s) (r_wait s) (r_res s) (r_slots s) (r_cblog s) (r_out s) e (r_env s) (r_nreg s).
+Definition set_env (s : rs) b := mkRs (r_pools s) (r_wait s) (r_res s) (r_slots s) (r_cblog s) (r_out s) (r_err s) b (r_nreg s).
 
 (** _record_resource_amount_update *)
 Definition record (nw : Z) (n : Z) (s : rs) : rs :=
-  emit s (CData L_RESOURCE_UPDATE n [nw; usage (r_pools s) n; capacity (r_pools s) n]).
+  emit s (RData L_RESOURCE_UPDATE n [nw; usage (r_pools s) n; capacity (r_pools s) n]).
 
 (** _schedule_check_pending_requesters *)
 Definition sched_check (nw : Z) (s : rs) : rs :=
-  emit s (CSched nw P_OTHER_HIGH (-1) ACheck).
+  emit s (RSched nw P_OTHER_HIGH (-1) ACheck).
 
 (** add_resources *)
 Definition add_resources (nw : Z) (n a : Z) (s : rs) : rs :=
@@ -115,7 +127,8 @@ Definition reserve_into (nw : Z) (slot : Z) (r : req) (s : rs) : rs :=
 
 (** reserve_resources_with_callback *)
 Definition register (nw : Z) (cb : nat) (r : req) (s : rs) : rs :=
-  sched_check nw (set_wait s (r_wait s ++ [(r, cb)])).
+  let s1 := set_wait s (r_wait s ++ [mkW r cb (r_nreg s)]) in
+  sched_check nw (mkRs (r_pools s1) (r_wait s1) (r_res s1) (r_slots s1) (r_cblog s1) (r_out s1) (r_err s1) (r_env s1) (S (r_nreg s1))).
 
 (** _release_resources *)
 Fixpoint give_back (nw : Z) (r : req) (s : rs) : rs :=
@@ -241,9 +254,9 @@ Fixpoint check_pending (fuel : nat) (cbs : nat -> list rop) (nw : Z) (i : nat) (
   | S f =>
     match nth_error (r_wait s) i with
     | None => s
-    | Some (r, cb) =>
+    | Some (mkW r cb id) =>
       if can_fulfill (r_pools s) r then
-        let s1 := run_rops nw r (cbs cb) (set_cblog s ((cb, r, nw) :: r_cblog s)) in
+        let s1 := run_rops nw r (cbs cb) (set_cblog s (mkCb cb r nw id (r_pools s) :: r_cblog s)) in
         if negb (r_err s1 =? 0) then s1
         else check_pending f cbs nw i (set_wait s1 (firstn i (r_wait s1) ++ skipn (S i) (r_wait s1)))
       else check_pending f cbs nw (S i) s
